@@ -838,6 +838,23 @@ Proof. intros L. destruct (linked_sound _ _ _ _ L) as [K R]. eapply machine_mute
 Lemma link_set_act m a st l wk s : link (ob m) l wk s -> link (ob (set_act m a st)) l wk s.
 Proof. intros K. eapply link_frame; eauto. Qed.
 
+(** an immediate request (free lock, or re-entry) needs no fresh wake-up and leaves [wk] alone *)
+Lemma sim_request_immediate o l wk s a :
+  link o l wk s -> LPP.inv s -> LP.ph s a <> LP.Waiting ->
+  (l_owner (get_lock o l) = None \/ l_owner (get_lock o l) = Some a) ->
+  exists s', LP.step s (LP.Request a) = Some s' /\ link (sec_enter o l a) l wk s'.
+Proof.
+  intros K I P O.
+  unfold link in *. unfold sec_enter. pose proof (LPP.iC _ I) as C. unfold LPP.inv_owner in C.
+  cbn [LP.step]. rewrite (k_owner _ _ _ _ _ _ _ K) in O |- *.
+  destruct O as [O|O]; rewrite O in *.
+  - destruct C as (C1 & C2 & C3 & C4).
+    destruct (LP.ph s a) as [| |n] eqn:Pc; [|congruence|exfalso; eapply C4; eauto].
+    eexists. split; [reflexivity|]. cbn. apply linkf_bump. eapply linkf_take. exact K.
+  - destruct C as [C1 C2]. destruct (LP.ph s a) as [| |n] eqn:Pc; [contradiction|congruence|].
+    rewrite !Nat.eqb_refl. eexists. split; [reflexivity|]. cbn. apply linkf_bump. exact K.
+Qed.
+
 Theorem machine_request_immediate k cur m l c outer wk s :
   link (ob m) l wk s -> LPP.inv s -> LP.ph s cur <> LP.Waiting ->
   (l_owner (get_lock (ob m) l) = None \/ l_owner (get_lock (ob m) l) = Some cur) ->
@@ -845,26 +862,11 @@ Theorem machine_request_immediate k cur m l c outer wk s :
     exec (j + k) cur m (MRun (lock_enter l)) c outer = exec k cur m' (MRet VU) c outer.
 Proof.
   intros K I P O.
-  assert (F : is_scheduled (ob m) (length (sigs (ob m))) = false \/ True) by auto.
-  assert (Hs : forall Fr, exists s', LP.step s (LP.Request cur) = Some s' /\
-                 link (sec_enter (ob m) l cur) l (wk_enter (ob m) l cur wk) s').
-  { intros Fr. apply sim_request; auto. }
-  assert (Ew : wk_enter (ob m) l cur wk = wk).
-  { unfold wk_enter. destruct O as [O|O]; rewrite O; auto. now rewrite Nat.eqb_refl. }
-  (* the freshness hypothesis of [sim_request] is only used by the waiting branch *)
-  assert (Hs' : exists s', LP.step s (LP.Request cur) = Some s' /\ link (sec_enter (ob m) l cur) l wk s').
-  { unfold link in *. unfold sec_enter. pose proof (LPP.iC _ I) as C. unfold LPP.inv_owner in C.
-    cbn [LP.step]. rewrite (k_owner _ _ _ _ _ _ _ K) in O |- *.
-    destruct O as [O|O]; rewrite O in *.
-    - destruct C as (C1 & C2 & C3 & C4).
-      destruct (LP.ph s cur) as [| |n] eqn:Pc; [|congruence|exfalso; eapply C4; eauto].
-      eexists. split; [reflexivity|]. cbn. apply linkf_bump. eapply linkf_take. exact K.
-    - destruct C as [C1 C2]. destruct (LP.ph s cur) as [| |n] eqn:Pc; [contradiction|congruence|].
-      rewrite !Nat.eqb_refl. eexists. split; [reflexivity|]. cbn. apply linkf_bump. exact K. }
-  destruct Hs' as (s' & St & K'). exists s', (with_ob m (sec_enter (ob m) l cur) []).
+  destruct (sim_request_immediate _ _ _ _ cur K I P O) as (s' & St & K').
+  exists s', (with_ob m (sec_enter (ob m) l cur) []).
   destruct O as [O|O].
-  - exists 7. repeat split; auto. apply lock_enter_free_runs. exact O.
-  - exists 6. repeat split; auto. apply lock_enter_again_runs. exact O.
+  - exists 7. split; [exact St | split; [exact K' | apply lock_enter_free_runs; exact O]].
+  - exists 6. split; [exact St | split; [exact K' | apply lock_enter_again_runs; exact O]].
 Qed.
 
 Theorem machine_request_waits k a m l b st wk s :
@@ -886,8 +888,8 @@ Proof.
   assert (Em : m' = set_act (with_ob m (sec_enter (ob m) l a) []) a
                             (ASusp (lock_wait_frames l (lnotif (ob m) l) a w ++ st))).
   { apply lock_enter_wait_sleeps with (b := b); auto. apply K. }
-  exists s'. repeat split; auto.
-  - pose proof (LPP.available_predicts_request s a s') as A. cbn [LP.step] in St, A.
+  exists s'. split; [exact St | split; [| split]].
+  - cbn [LP.step] in St.
     unfold link in K. rewrite <- (k_owner _ _ _ _ _ _ _ K), O in St.
     destruct (LP.ph s a) eqn:Pa; try discriminate.
     + rewrite (proj2 (Nat.eqb_neq b a)) in St by auto. injection St as <-. cbn. apply LPP.upd_same.
